@@ -139,6 +139,13 @@ def run(chk):
         chk.floor('recursive walks', n, 15)
     chk.guard('recursive-address', 'walks of the public operations', walks)
     chk.guard('recursive-address', 'private address builders', ptrs)
+    # the clean-up walk reaches child tables by recursive address too (the level-(k-1) table of the child range's first page, per
+    # iterated slot): C10's rules for the recursive helper and its entry points, under this property's name
+    def cleanup_walk():
+        from . import c10
+        c10.helper(chk, 'recursive')
+        c10.entry_points(chk, 'recursive')
+    chk.guard('recursive-address', 'clean-up walk', cleanup_walk)
 
     def ctor():
         fn_ = RPT + "::<'_>::new"
